@@ -115,6 +115,10 @@ def run(ctx):
             summary["per_family"][k] = summary["per_family"].get(k, 0) + v
         for k, v in (sm.get("by_signature") or {}).items():
             summary["by_signature"][k] = summary["by_signature"].get(k, 0) + v
+    for sm in (summary, summary2, summary3):
+        if sm.get("intrinsic_reference"):
+            ctx.cov["reference"] = "intrinsic (what MQTT demands for the stream, decoded with the independent codec): " + sm["intrinsic_reference"]
+            ctx.notes.append("the TCP twin was not usable as the reference: " + sm["intrinsic_reference"])
     ctx.cov["unread_tail_run"] = {"segmentations": summary3["n"], "fresh_connections_after_each": 3}
     ctx.cov["small_max_packet_size_run"] = {"max_packet_size": wsconn_lib.PACK_MAXPKT, "segmentations": summary2["n"]}
     ctx.cov["phases_s"] = {"enumeration_done": round(t1, 1), "driver_done": round(vlib.time.time() - ctx.t0, 1)}
